@@ -4,6 +4,7 @@ import (
 	"context"
 	"encoding/json"
 	"fmt"
+	"github.com/attestantio/dirk/services/signer"
 	"runtime"
 	"sync"
 	"sync/atomic"
@@ -115,7 +116,7 @@ func c08Batch(r *rig.SignerRig, kind string, n int, real bool, viaHandler bool) 
 	var handler *signerhandler.Handler
 	if viaHandler {
 		var err error
-		handler, err = signerhandler.New(ctx, signerhandler.WithSigner(r.Signer))
+		handler, err = signerhandler.New(ctx, signerhandler.WithSigner(&interposedSigner{Service: r.Signer, r: r}))
 		if err != nil {
 			return nil, "", err
 		}
@@ -169,6 +170,7 @@ func c08Batch(r *rig.SignerRig, kind string, n int, real bool, viaHandler bool) 
 			if err != nil {
 				return nil, "", err
 			}
+			otherBatch(r, handler, ctx) // the response is read after the server has answered somebody else
 			for _, x := range res.GetResponses() {
 				ress = append(ress, stateToResult(x.GetState()))
 				sigs = append(sigs, x.GetSignature())
@@ -201,6 +203,7 @@ func c08Batch(r *rig.SignerRig, kind string, n int, real bool, viaHandler bool) 
 			if err != nil {
 				return nil, "", err
 			}
+			otherBatch(r, handler, ctx)
 			for _, x := range res.GetResponses() {
 				ress = append(ress, stateToResult(x.GetState()))
 				sigs = append(sigs, x.GetSignature())
@@ -238,6 +241,54 @@ func c08Batch(r *rig.SignerRig, kind string, n int, real bool, viaHandler bool) 
 		}
 	}
 	return items, "", nil
+}
+
+// interposedSigner stands for a server that handles requests side by side: between the moment the signer hands a batch
+// result to the handler and the moment the handler reads it, another batch (other accounts, other data) is served in full.
+type interposedSigner struct {
+	signer.Service
+	r    *rig.SignerRig
+	busy bool
+}
+
+func (s *interposedSigner) other(ctx context.Context, c *checker.Credentials) {
+	if s.busy {
+		return
+	}
+	s.busy = true
+	defer func() { s.busy = false }()
+	a, b := s.r.AddSymAccount("Wallet 1", "", "pass", true), s.r.AddSymAccount("Wallet 1", "", "pass", true)
+	dom := make([]byte, 32)
+	dom[0] = 7
+	dom[9] = 0x99
+	s.Service.Multisign(ctx, c, []string{"Wallet 1/" + a.Name(), "Wallet 1/" + b.Name()}, nil, []*rules.SignData{{Domain: dom, Data: c08Root(0x77)}, {Domain: dom, Data: c08Root(0x78)}})
+	s.Service.SignBeaconAttestations(ctx, c, []string{"Wallet 1/" + a.Name(), "Wallet 1/" + b.Name()}, nil,
+		[]*rules.SignBeaconAttestationData{AttData(Ent{S: 7, T: 8, Root: 3}), AttData(Ent{S: 7, T: 9, Root: 4})})
+}
+
+func (s *interposedSigner) Multisign(ctx context.Context, c *checker.Credentials, n []string, k [][]byte, d []*rules.SignData) ([]core.Result, [][]byte) {
+	res, sigs := s.Service.Multisign(ctx, c, n, k, d)
+	s.other(ctx, c)
+	return res, sigs
+}
+
+func (s *interposedSigner) SignBeaconAttestations(ctx context.Context, c *checker.Credentials, n []string, k [][]byte, d []*rules.SignBeaconAttestationData) ([]core.Result, [][]byte) {
+	res, sigs := s.Service.SignBeaconAttestations(ctx, c, n, k, d)
+	s.other(ctx, c)
+	return res, sigs
+}
+
+// otherBatch has the handler answer another client's batches (their responses are dropped).
+func otherBatch(r *rig.SignerRig, h *signerhandler.Handler, ctx context.Context) {
+	a, b := r.AddSymAccount("Wallet 1", "", "pass", true), r.AddSymAccount("Wallet 1", "", "pass", true)
+	dom := make([]byte, 32)
+	dom[0] = 7
+	dom[9] = 0x98
+	_, _ = h.Multisign(ctx, &pb.MultisignRequest{Requests: []*pb.SignRequest{mkSignReq("Wallet 1/"+a.Name(), nil, c08Root(0x79), dom), mkSignReq("Wallet 1/"+b.Name(), nil, c08Root(0x7a), dom)}})
+	d := AttData(Ent{S: 5, T: 6, Root: 5})
+	_, _ = h.SignBeaconAttestations(ctx, &pb.SignBeaconAttestationsRequest{Requests: []*pb.SignBeaconAttestationRequest{
+		mkAttReq("Wallet 1/"+a.Name(), nil, d.Domain, &pb.AttestationData{Slot: d.Slot, CommitteeIndex: d.CommitteeIndex, BeaconBlockRoot: d.BeaconBlockRoot, Source: &pb.Checkpoint{Epoch: d.Source.Epoch, Root: d.Source.Root}, Target: &pb.Checkpoint{Epoch: d.Target.Epoch, Root: d.Target.Root}}),
+		mkAttReq("Wallet 1/"+b.Name(), nil, d.Domain, &pb.AttestationData{Slot: d.Slot, CommitteeIndex: d.CommitteeIndex, BeaconBlockRoot: d.BeaconBlockRoot, Source: &pb.Checkpoint{Epoch: d.Source.Epoch, Root: d.Source.Root}, Target: &pb.Checkpoint{Epoch: d.Target.Epoch, Root: d.Target.Root}})}})
 }
 
 func stateToResult(s pb.ResponseState) core.Result {
